@@ -513,7 +513,7 @@ func main() {
 	for _, h := range [][]byte{{0x4e, 0, 0, 0, 1}, {0x4e, 0, 0, 1, 0}, {0x4e, 0, 1, 0, 0}, {0x4e, 1, 0, 0, 0}, {0x4d, 0, 1}, {0x4d, 1, 0}} {
 		fill := make([]byte, 70000)
 		for i := range fill {
-			fill[i] = 0x61
+			fill[i] = 0x4b // whatever the reading of the length, what follows tokenises into few 76-byte pushes
 		}
 		scriptCase("length-byte-weights", append(append([]byte{}, h...), fill...))
 	}
